@@ -42,7 +42,7 @@ type BatchResult struct {
 	Failures    []Failure      `json:"failures,omitempty"`
 	Violations  int            `json:"violations"`
 	ByRule      map[string]int `json:"by_rule,omitempty"`
-	Located     int            `json:"located"`   // violations with a position that were checked
+	Located     int            `json:"located"` // violations with a position that were checked
 	TextChecked int            `json:"text_checked"`
 	EndPastLine int            `json:"end_past_line"`
 	AggTextDiff int            `json:"agg_text_diff"`
@@ -438,16 +438,17 @@ func (t *tailBuf) String() string {
 // ---- corpus assembly ---------------------------------------------------------------------------------
 
 type Plan struct {
-	Tier       string
-	Repo       string
-	OPADir     string
-	CorpusDir  string // /verif/corpus/<ID>: regression seeds, linted first
-	OPASample  int    // 0 = all
-	GenN       int
-	MutN       int
-	Stress     int
-	BatchSize  int
-	SingleFile int // this many modules are additionally linted alone (single-file mode: no aggregate phase)
+	Tier         string
+	Repo         string
+	OPADir       string
+	CorpusDir    string // /verif/corpus/<ID>: regression seeds, linted first
+	OPASample    int    // 0 = all
+	GenN         int
+	MutN         int
+	Stress       int
+	BatchSize    int
+	BundleSample int // 0 = all bundle files
+	SingleFile   int // this many modules are additionally linted alone (single-file mode: no aggregate phase)
 }
 
 type Assembled struct {
@@ -490,6 +491,14 @@ func Assemble(r *hutil.Rng, p Plan) Assembled {
 		}
 	}
 	bundle := LoadBundle(p.Repo)
+	a.Counts["bundle_files"] = len(bundle)
+	allBundle := bundle
+	if p.BundleSample > 0 && p.BundleSample < len(bundle) {
+		bundle = append([]Module{}, bundle...)
+		hutil.Shuffle(r, bundle)
+		bundle = bundle[:p.BundleSample]
+		sort.Slice(bundle, func(i, j int) bool { return bundle[i].Name < bundle[j].Name })
+	}
 	a.Counts["bundle"] = len(bundle)
 	a.Batches = append(a.Batches, batchUp(bundle, 64)...)
 	opa, files := LoadOPA(p.OPADir)
@@ -508,7 +517,7 @@ func Assemble(r *hutil.Rng, p Plan) Assembled {
 	gen := GenModules(r, p.GenN)
 	a.Counts["gen"] = len(gen)
 	a.Batches = append(a.Batches, batchUp(gen, p.BatchSize)...)
-	base := append(append([]Module{}, opa...), bundle...)
+	base := append(append([]Module{}, opa...), allBundle...)
 	base = append(base, gen...)
 	mut := Mutations(r, base, p.MutN)
 	a.Counts["mut"] = len(mut)
